@@ -45,6 +45,8 @@ func defaultEnv() *Env {
 	add("f", float64(1.5))
 	add("g", float64(-0.25))
 	add("f32", float32(2.5))
+	add("f32b", float32(0.1))
+	add("ubig", uint64(1)<<63+5)
 	add("s", "hi")
 	add("e", "")
 	add("t", true)
